@@ -151,7 +151,52 @@ def diff(a, b, path=""):
     return None
 
 
-def queries(model, uuids: list | None = None, touched: set | None = None, limit: int = 400) -> dict:
+REL_STATS: dict = {}
+
+
+def relations_of(o) -> dict:
+    """every relation descriptor of the object's class (all `Accessor`s that are not plain attributes), answered through
+    the public API and canonicalised: a list of UUIDs (order kept), one UUID, None; an exception is recorded by class"""
+    from capellambse.model import _descriptors as D
+    from capellambse.model import _obj as O
+
+    out = {}
+    cls = type(o)
+    for attr in sorted(dir(cls)):
+        if attr.startswith("_") or attr in ("parent", "diagrams", "visible_on_diagrams", "xtype", "progress_status", "pvmt"):
+            continue
+        try:
+            acc = getattr(cls, attr)
+        except Exception:  # noqa: BLE001
+            continue
+        if not isinstance(acc, D.Accessor) or type(acc).__name__ in ("BasePOD",) or hasattr(acc, "attribute") and not hasattr(acc, "aslist"):
+            continue
+        kind = type(acc).__name__
+        try:
+            v = getattr(o, attr)
+        except Exception as e:  # noqa: BLE001
+            out[attr] = {"raises": type(e).__name__}
+            REL_STATS[kind + ":raises"] = REL_STATS.get(kind + ":raises", 0) + 1
+            continue
+        if isinstance(v, O.ElementList):
+            try:
+                out[attr] = [getattr(x, "uuid", None) or type(x).__name__ for x in v]
+            except Exception as e:  # noqa: BLE001
+                out[attr] = {"raises": type(e).__name__}
+        elif isinstance(v, O.ModelElement):
+            try:
+                out[attr] = v.uuid
+            except Exception:  # noqa: BLE001
+                out[attr] = type(v).__name__
+        elif v is None:
+            out[attr] = None
+        else:
+            continue
+        REL_STATS[kind] = REL_STATS.get(kind, 0) + 1
+    return out
+
+
+def queries(model, uuids: list | None = None, touched: set | None = None, limit: int = 400, rel_for: list | None = None) -> dict:
     """answers of a set of API queries, keyed by UUID. Without `uuids` (the in-memory side) the objects are chosen:
     all of them for small models, else every owner of a specification, everything the history touched and an evenly
     spread sample; with `uuids` (the reloaded side) exactly those are looked up again with `by_uuid`."""
@@ -212,6 +257,8 @@ def queries(model, uuids: list | None = None, touched: set | None = None, limit:
             rec["spec"] = {k: spec[k] for k in spec}
         except Exception:  # noqa: BLE001
             pass
+        if rel_for is not None and u in rel_for:
+            rec["relations"] = relations_of(o)
         out[u] = rec
     return out
 
@@ -648,7 +695,10 @@ def save_and_compare(h: History, path: pathlib.Path, capellambse, key, cases: li
         out.find(f"MelodyModel.save|raises|{type(e).__name__}", f"save() after {len(h.log)} API operations raised {type(e).__name__}: {e}", replay)
         return False
     mem = {k: canon(v) for k, v in frag_roots(m).items()}
-    q_mem = queries(m, touched=h.touched)
+    # every relation of (some of) the touched objects, too: fewer on big models (back-reference relations scan the model)
+    n_rel = 25 if (h.ctx.thorough or not big_model(path)) else 5
+    rel_for = sorted(h.touched)[-n_rel:] if model_side else []
+    q_mem = queries(m, touched=h.touched, rel_for=rel_for)
     out.case(key, {"model": h.label, "ops": len(h.log), "last": last} if len(out.samples) < 4 else None, h.ok_since_save > 0)
     out.traces_validated += 1
     h.ok_since_save = 0
@@ -669,11 +719,15 @@ def save_and_compare(h: History, path: pathlib.Path, capellambse, key, cases: li
             out.find(f"MelodyModel.save|reload-differs|{d[0]}",
                      f"{h.label}: after save + reload {name} differs from memory: {d[1]} (last operation: {last})",
                      {**replay, "observed": "tree:" + d[0]})
-    q2 = queries(m2, uuids=list(q_mem))
+    q2 = queries(m2, uuids=list(q_mem), rel_for=rel_for)
     if q2 != q_mem:
         bad = [(u, k, q_mem[u].get(k), q2.get(u, {}).get(k)) for u in q_mem for k in q_mem[u]
                if q2.get(u, {}).get(k) != q_mem[u].get(k)][:3]
-        cls = "spec" if any(b[1] == "spec" for b in bad) else "attribute"
+        if bad and all(b[1] == "relations" for b in bad):
+            u, _, a, b = bad[0]
+            ks = [k for k in sorted(set(a or {}) | set(b or {})) if (a or {}).get(k) != (b or {}).get(k)][:3]
+            bad = [(u, "relations." + k, (a or {}).get(k), (b or {}).get(k)) for k in ks]
+        cls = "spec" if any(b[1] == "spec" for b in bad) else "relation" if any(str(b[1]).startswith("relations") for b in bad) else "attribute"
         out.find(f"MelodyModel.save|query-differs|{cls}",
                  f"{h.label}: an API query answers differently after save + reload: {bad!r}"[:600],
                  {**replay, "observed": "query:" + cls})
@@ -910,6 +964,7 @@ def run(ctx: Ctx) -> Outcome:
                 else:
                     out.disagree(stream, case, short(want), short(mv))
     out.extra["alphabet"] = [a.encode("unicode_escape").decode("ascii") for a in STR_ALPHA]
+    out.extra["relations_compared_by_accessor_kind"] = dict(sorted(REL_STATS.items()))
     return out
 
 
